@@ -215,6 +215,26 @@ func c16Corpus() []c16Case {
 	}})
 	// empty (non-nil) list: nothing is enabled
 	cs = append(cs, c16Case{algos: []string{}, max: 100, ct: "zlib", reqs: []c16Req{{mode: "client", body: x("a")}}})
+	// streamed (multi-block) bodies at EVERY level the client configuration offers: frame headers / window sizes /
+	// dictionaries depend on the level, not on the content, and only show once the body exceeds one block (~128 KiB)
+	for _, tl := range []struct {
+		ct   string
+		lvls []int
+	}{
+		{"zstd", []int{0, 1, 3, 6, 11, 22}},
+		{"gzip", []int{-2, -1, 1, 6, 9}},
+		{"zlib", []int{-1, 1, 9}},
+		{"deflate", []int{-1, 9}},
+		{"snappy", []int{0}},
+		{"lz4", []int{0}},
+	} {
+		for _, lvl := range tl.lvls {
+			cs = append(cs, c16Case{algosNil: true, max: 0, ct: tl.ct, lvl: lvl, reqs: []c16Req{
+				{mode: "client", body: c16Body{kind: 'r', n: 200_000, seed: uint64(31 + lvl)}},
+				{mode: "client", body: c16Body{kind: 't', n: 300_000}},
+			}})
+		}
+	}
 	return cs
 }
 
